@@ -103,6 +103,32 @@ def main(tier_: str) -> int:
                 except Exception as err:
                     ln['exc'] = type(err).__name__
                 add(ln)
+        # ---- the same values through the template filters that render them into manifests (server/template_tags.py) ----------
+        try:
+            import sys as _sys
+            from harness.core import VERIF as _VERIF
+            if str(_VERIF / 'shims') not in _sys.path:
+                _sys.path.insert(0, str(_VERIF / 'shims'))
+            from dashlive.server.template_tags import isoDuration as f_dur, isoDateTime as f_dt
+        except Exception as err:      # noqa: BLE001
+            raise MachineryFailure(f'template filters not importable: {type(err).__name__}: {err}')
+        fgrid = [(0, 0), (0, 1), (0, 500), (0, 999500), (1, 0), (59, 999999), (60, 0), (3600, 0), (86400, 0), (360000, 250000), (4000000, 0)]
+        fgrid += [(rng.randrange(0, 10**6), rng.choice([0, rng.randrange(10**6)])) for _ in range(30)]
+        for s, u in fgrid:
+            for kind in ('filter:td', 'filter:float') + (('filter:int',) if u == 0 else ()):
+                arg = datetime.timedelta(seconds=s, microseconds=u) if kind == 'filter:td' else (s + u / 1e6 if kind == 'filter:float' else s)
+                ln = {'ev': 'dur', 'x': {'s': s, 'u': u}, 'kind': kind, 'text': '', 'f': tok_duration(''), 'parsed': {'s': 0, 'u': 0}, 'parse_ok': 0}
+                try:
+                    text = f_dur(arg)
+                    ln['text'] = text
+                    ln['f'] = tok_duration(text)
+                    back = from_isodatetime(text)
+                    if isinstance(back, datetime.timedelta):
+                        ln['parsed'] = dur_of(back)
+                        ln['parse_ok'] = 1
+                except Exception as err:      # noqa: BLE001
+                    ln['exc'] = type(err).__name__
+                add(ln)
         ndur = len(lines)
         # ---- date-times ---------------------------------------------------------------------
         days = [datetime.date(1970, 1, 1), datetime.date(1999, 12, 31), datetime.date(2024, 2, 29), datetime.date(2024, 3, 1),
